@@ -193,3 +193,37 @@ func VerifC01_Regenerate() {
 	_, err := AssembleFile(context.Background(), target, idx, st, seeds, AssembleOptions{N: 1, InvalidSeedAction: InvalidSeedActionRegenerate})
 	verifCheckAssembled(target, blob, err, false)
 }
+
+// VerifC01_RegenerateReal: invalid-seed action "regenerate" with chunk sizes the chunker
+// accepts (48/64/72), so the seed really is re-indexed: the seed is a truncated or altered
+// copy of the blob that still carries the blob's full index.
+func VerifC01_RegenerateReal() {
+	vSchedFixed(true)
+	vPreempt(0)
+	vFSYield(false)
+	blob := verifPattern(300, 100, []int{0, 150}[vChoose("zero-run", 2)], false)
+	chunks := verifSequentialIndex(blob, 48, 64, 72)
+	idx := Index{Index: FormatIndex{FeatureFlags: CaFormatSHA512256, ChunkSizeMin: 48, ChunkSizeAvg: 64, ChunkSizeMax: 72}, Chunks: chunks}
+	st := &verifStore{}
+	for _, c := range chunks {
+		st.add(blob[c.Start : c.Start+c.Size])
+	}
+	dir := vTempDir()
+	target := dir + "/out"
+	seedData := append([]byte(nil), blob...)
+	switch vChoose("seed-damage", 4) {
+	case 0: // cut to the first quarter: the regenerated index has fewer chunks than the stale one
+		seedData = seedData[:75]
+	case 1: // cut in the middle of a chunk
+		seedData = seedData[:130]
+	case 2: // one byte changed in the first chunk
+		seedData[3] ^= 0xff
+	case 3: // one byte changed in the last chunk
+		seedData[len(seedData)-2] ^= 0xff
+	}
+	os.WriteFile(dir+"/seed", seedData, 0644)
+	seed, _ := NewIndexSeed(target, dir+"/seed", idx)
+	n := 1 + vChoose("workers", 2)
+	_, err := AssembleFile(context.Background(), target, idx, st, []Seed{seed}, AssembleOptions{N: n, InvalidSeedAction: InvalidSeedActionRegenerate})
+	verifCheckAssembled(target, blob, err, true)
+}
